@@ -135,7 +135,7 @@ def search(ctx, budget, hints):
     rng = vlib.Rng(ctx.seed + 2020)
     out = []
     n = 0
-    for _ in range(4000 * budget):
+    for _ in range(9000 * budget):
         n += oracle_case(rand_case(rng), out)
     best, hist = {}, {}
     for c in out:
